@@ -161,7 +161,7 @@ def run_real_pmap(cfg):
         w.trace.append(["R", idx])
         if cfg["stop_after"] is None:
             return None
-        return cfg["stop_after"] - len(reduced)
+        return _signal(cfg, len(reduced))
 
     def extract_result(future):
         e = future.exception()
@@ -214,6 +214,16 @@ def run_real_pmap(cfg):
     return {"trace": w.trace, "outcome": out, "terminated": True}, w
 
 
+def _signal(cfg, nred):
+    """What the reducer returns after its nred-th result.  'monotone': tasks left (stays <= 0 once reached);
+    'none' / 'positive': the completion signal (a value <= 0) is given once, later calls return None ("no estimate")
+    or a positive estimate again -- completion, once signalled, cannot be taken back."""
+    mode = cfg.get("after_stop", "monotone")
+    if mode != "monotone" and nred > max(cfg["stop_after"], 1):
+        return None if mode == "none" else 3
+    return cfg["stop_after"] - nred
+
+
 def _task(v):
     raise RuntimeError("tasks are never executed by the fake executor")
 
@@ -250,7 +260,7 @@ def run_real_serial(cfg):
         reduced.append(res[1] if res is not None else ran[-1])
         if cfg["stop_after"] is None:
             return None
-        return cfg["stop_after"] - len(reduced)
+        return _signal(cfg, len(reduced))
 
     saved = par.time
     par.time = types.SimpleNamespace(time=lambda: 1000 + clock["t"])
@@ -390,6 +400,7 @@ def gen_cfg(rng, tier):
     # with a reducer, some tasks return None (a legitimate result that the reducer must still be handed)
     cfg["nones"] = sorted(set(int(x) for x in rng.integers(0, max(n, 1), size=int(rng.choice([0, 0, 1, 3]))))) if (reducer and n) else []
     cfg["frontend"] = bool(cfg["drain"] and rng.random() < 0.5)
+    cfg["after_stop"] = str(rng.choice(["monotone", "none", "positive"])) if stop_after is not None else "monotone"
     return cfg
 
 
@@ -399,10 +410,12 @@ def enumerate_small():
         for workers in (1, 2, 3):
             for raises in ([], [0], [n - 1] if n else [], [1, 2] if n > 2 else []):
                 for ff in (False, True):
-                    for reducer, stop in ((False, None), (True, None), (True, 1), (True, 2)):
+                    for reducer, stop, after in ((False, None, "monotone"), (True, None, "monotone"), (True, 1, "monotone"),
+                                                 (True, 2, "monotone"), (True, 1, "none"), (True, 2, "positive")):
                         for comps in itertools.product(([], [0], [1], [1, 0]), repeat=min(n, 3)):
                             yield {"n": n, "workers": workers, "raises": sorted(set(raises)), "fail_fast": ff,
                                    "reducer": reducer, "stop_after": stop, "timeout": None, "drain": True,
+                                   "after_stop": after,
                                    "sched": [{"comp": list(c), "tick": 0} for c in comps]}
 
 
